@@ -15,11 +15,15 @@
      - the selector returns something in every stalled state outside the class K-stall
        (C20_stall_relievable_outside_known), for every option setting; inside the class the
        statement is false (C20_stall_relievable_refuted, C20_deadlock_reachable_in_known_class).
-   Not proved here: that every run of compactions from a stalled state reaches an unstalled one
-   (a termination measure over the tree); fairness of the scheduler and of Mutex/Condvar. *)
+     - and the store cannot compact forever instead: every compaction the selector picks lowers
+       a measure of the tree, so at most mu v select-and-apply steps fit between two ingests
+       (C20_compaction_lowers_measure, C20_compaction_runs_are_bounded; stated for one
+       compaction at a time: that a compaction selected on one version and applied to a later one,
+       after non-overlapping compactions of other threads, still lowers the measure is not proved).
+   Not proved here: fairness of the scheduler and of Mutex/Condvar (a runnable thread runs). *)
 From Coq Require Import NArith ZArith List Bool Arith.
 From Blue Require Import Gen.Const_Stall Lsm.Model Stall.Select Stall.Known Stall.Proto
-  Stall.ProofsBounds Stall.ProofsAdm Stall.ProofsNext Stall.ProofsTotal Stall.ProofsStall Stall.ProofsRelief Stall.ProofsProto.
+  Stall.ProofsBounds Stall.ProofsAdm Stall.ProofsNext Stall.ProofsTotal Stall.ProofsStall Stall.ProofsRelief Stall.ProofsProto Stall.ProofsMeasure Stall.ProofsProgress.
 Import ListNotations.
 Open Scope N_scope.
 
@@ -160,6 +164,21 @@ Proof. exact widen_enough_fuel. Qed.
 Theorem C20_ingest_keeps_stall : forall o v f, v <> [] ->
   should_stall_ingest o v = true -> should_stall_ingest o (ingest v f) = true.
 Proof. exact should_stall_ingest_mono. Qed.
+
+(* 14. Every compaction the selector picks strictly lowers mu (sum over levels of (number of
+       levels - level) * entries), whenever its outputs hold no more entries than its inputs (a
+       merge keeps them all, garbage collection drops some). *)
+Theorem C20_compaction_lowers_measure : forall o v og out c outs, sel_wfb v = true ->
+  next_compaction o v og = Ok out -> nc_choice out = Some c ->
+  (ec outs <= in_entries v (cc c))%nat ->
+  (mu (apply_compaction v (cc c) outs) < mu v)%nat.
+Proof. exact compaction_step_lowers_mu. Qed.
+
+(* 15. Hence a run of n select-and-apply steps from v exists only for n <= mu v: between two
+       ingests the selector runs dry after finitely many compactions, it cannot keep a stalled
+       store busy forever. *)
+Theorem C20_compaction_runs_are_bounded : forall o n v v', crun o n v v' -> (n + mu v' <= mu v)%nat.
+Proof. exact crun_bounded. Qed.
 
 (* 13. The retyped float tables cover exactly NUM_LEVELS levels. *)
 Theorem C20_tables_cover_levels :
